@@ -96,7 +96,7 @@ let handle = function
                           (match int_of_n e with 1 -> "connect" | 2 -> "send" | 3 -> "receive" | _ -> "timeout") (int_of_n t) (int_of_n sends))
   | "sm" :: idle :: evs ->
       (* s<k> single-response submit by caller k (question token k); x<k> AXFR and y<k> IXFR
-         multi-response submit; f connection failure;
+         multi-response submit; f connection failure; t the idle timeout expires;
          p<id>:<qr>:<rcode>:<qd>:<an>:<tc>:<qs>:<ans>:<ka> a reply (qs: comma list of tokens, - empty, bad;
          ans: - empty, bad = answer() fails, else comma list of s<serial> | o | e = unparsable record) *)
       let lst s = if s = "-" then [] else List.map ni (String.split_on_char ',' s) in
@@ -111,6 +111,7 @@ let handle = function
         | 'x' -> ESubmit (num t, [num t], true, false, XAxfrInit)
         | 'y' -> ESubmit (num t, [num t], true, false, XIxfrInit)
         | 'f' -> EFail (n_of_int 1)
+        | 't' -> ETick
         | 'p' -> (match String.split_on_char ':' (String.sub t 1 (String.length t - 1)) with
                   | [id; qr; rc; qd; an; tc; qs; a; ka] ->
                       (* ka: - no keepalive option, n option without timeout, else the timeout in units of 100 ms (the OPT record makes ARCOUNT 1) *)
@@ -179,5 +180,21 @@ let handle = function
       let r1 = c15_ms_request (ni t) atts (List.init 400 (fun _ -> n_of_int 100000000)) in
       let r2 = c15_ms_request (ni t) atts (List.init 400 (fun k -> n_of_int (137 * (k + 1)))) in
       if r0 = r1 && r1 = r2 then show r0 else "NONDET " ^ show r0 ^ " / " ^ show r1
+  | ["msc"; iz; ops] ->
+      (* requests (q) over one multi_stream transport, the peer killing the current connection (k) in between:
+         per request <got a reply>:<connects made so far> *)
+      let l = List.init (String.length ops) (fun i -> if ops.[i] = 'q' then MQ else MK) in
+      String.concat " " (List.map (fun (ok, c) -> Printf.sprintf "%d:%d" (if ok then 1 else 0) (int_of_n c)) (c15_msc (iz = "1") l))
+  | ["red"; n; de; dr; ds; res] ->
+      (* redundant with n upstreams all giving the same result: g<rcode> a reply, e a transport error;
+         flags defer_transport_error, defer_refused, defer_servfail *)
+      let r = (if res = "e" then UErr (n_of_int 1) else
+                 let rc = ni (String.sub res 1 (String.length res - 1)) in
+                 if c15_red_skip (dr = "1") (ds = "1") rc then USkip rc else UGood rc) in
+      (match c15_red (de = "1") (ni n) r with
+       | Ok (Inr (RReturnOk m)) -> Printf.sprintf "Ok %d" (int_of_n m)
+       | Ok (Inr (RReturnErr _)) -> "Err"
+       | Ok (Inl _) -> "Pending"
+       | _ -> "Panic")
   | _ -> failwith "bad case line"
 let () = main handle
